@@ -24,14 +24,15 @@ EXTENDS Layout, NdMapFn, TLC
 CONSTANTS Slots, Types, ExtChoices, Vals, MaxOps, AssignImpl, WM,
           Ops,     \* the operations enabled in this configuration (subset of AllOps)
           ConstructSlots, \* slots in which Construct may be used (bounds who is addressed, not only how many)
-          Unbounded       \* TRUE: no bound on the history length; freed block ids are recycled so that the state space is finite
+          Unbounded,      \* TRUE: no bound on the history length; freed block ids are recycled so that the state space is finite
+          ViewIds         \* identifiers of long-lived views (field_view objects kept across operations); {} = none
 
 \* Types is a set of layout names; a field type is (layout, dimensionality of its extents)
 NullBlk == 0
 BlkIds == IF Unbounded THEN 1..(Cardinality(Slots) + 2) ELSE 1..(3 * MaxOps + 2)
 
-VARIABLES slot, heap, model, nblk, err, stream, ops
-vars == <<slot, heap, model, nblk, err, stream, ops>>
+VARIABLES slot, heap, model, nblk, err, stream, ops, view
+vars == <<slot, heap, model, nblk, err, stream, ops, view>>
 
 Dead == [st |-> "dead", ty |-> "none", ext |-> <<>>, blk |-> NullBlk, size |-> 0]
 Live(s) == slot[s].st = "live"
@@ -39,7 +40,22 @@ Assignable(s) == slot[s].st \in {"live", "moved", "unspec"}
 ZeroCells(n) == [i \in 0..(n - 1) |-> 0]
 IdxOf(ty, e, c) == Idx(ty, e, c, WM)
 
-Init == /\ slot = [s \in Slots |-> Dead]
+\* A VIEW (field_view.hpp:30-33, array.hpp:200-217) is a self-contained value: a copy of every layer's configuration and
+\* a raw pointer to the storage block.  It refers to the STORAGE, not to the field object it was made from, so it keeps
+\* denoting the same cells when ownership of the block moves to another field object (the move operations transfer the
+\* unique_ptr), and it is dead as soon as the block may have been released: after any operation that targets the owning
+\* field as the destination of an assignment, or destroys it.  (Views are passed by value to device kernels in
+\* examples/cuda: they cannot hold references into the host-side field object.)
+\* `from' is a ghost: the slot the view was made from.  No action reads it - a view does not depend on the field object it was
+\* copied out of - but keeping it in the state makes TLC distinguish, and emit a witness behaviour for, "the origin has since
+\* been moved from / destroyed / reconstructed with other extents", which is exactly where an implementation that let views
+\* refer back to the field object would go wrong.
+NoView == [st |-> "none", blk |-> NullBlk, ty |-> "none", ext |-> <<>>, from |-> 0]
+KeepViews(B) == view' = [v \in ViewIds |-> IF view[v].blk \in B THEN NoView ELSE view[v]]
+OwnerOf(b) == CHOOSE s \in Slots : slot[s].blk = b
+
+Init == /\ view = [v \in ViewIds |-> NoView]
+        /\ slot = [s \in Slots |-> Dead]
         /\ heap = [b \in BlkIds |-> [st |-> "unalloc", cells |-> <<>>]]
         /\ model = [s \in Slots |-> <<>>]
         /\ nblk = 0 /\ err = "" /\ stream = <<>> /\ ops = 0
@@ -65,6 +81,7 @@ Construct(s, ty, e) ==
        /\ slot' = [slot EXCEPT ![s] = [st |-> "live", ty |-> ty, ext |-> e, blk |-> b, size |-> n]]
        /\ model' = [model EXCEPT ![s] = [c \in Box(e) |-> 0]]
   /\ UNCHANGED <<err, stream>>
+  /\ KeepViews({})
 
 \* write through a freshly made view at an in-range coordinate
 Write(s, c, v) ==
@@ -75,6 +92,7 @@ Write(s, c, v) ==
           ELSE err' = err /\ heap' = [heap EXCEPT ![b].cells[i] = v]
   /\ model' = [model EXCEPT ![s][c] = v]
   /\ UNCHANGED <<slot, nblk, stream>>
+  /\ KeepViews({})
 
 \* array::owning_data_t(const owning_data_t &): m_size(o.m_size), m_ptr(make_unique(m_size)), memcpy
 CopyCtor(d, s) ==
@@ -85,6 +103,7 @@ CopyCtor(d, s) ==
        /\ slot' = [slot EXCEPT ![d] = [slot[s] EXCEPT !.blk = b]]
        /\ model' = [model EXCEPT ![d] = model[s]]
   /\ UNCHANGED <<err, stream>>
+  /\ KeepViews({})
 
 \* defaulted move: the unique_ptr is taken, the source keeps its (stale) size and a null pointer
 MoveCtor(d, s) ==
@@ -92,6 +111,7 @@ MoveCtor(d, s) ==
   /\ slot' = [slot EXCEPT ![d] = slot[s], ![s] = [slot[s] EXCEPT !.st = "moved", !.blk = NullBlk]]
   /\ model' = [model EXCEPT ![d] = model[s], ![s] = <<>>]
   /\ UNCHANGED <<heap, nblk, err, stream>>
+  /\ KeepViews({})
 
 \* array::owning_data_t::operator=(const &), d # s.  Sub-steps as coded:
 \*   m_size = o.m_size; m_ptr = make_unique(m_size) [allocates, then releases the old block]; memcpy from o
@@ -106,6 +126,7 @@ CopyAssign(d, s) ==
         /\ slot' = [slot EXCEPT ![d] = [slot[s] EXCEPT !.blk = b]]
         /\ model' = [model EXCEPT ![d] = model[s]]
   /\ UNCHANGED stream
+  /\ KeepViews({slot[d].blk})
 
 \* a = a
 SelfCopyAssign(s) ==
@@ -119,6 +140,7 @@ SelfCopyAssign(s) ==
              /\ slot' = [slot EXCEPT ![s].blk = b]
              /\ model' = model                                           \* what the user is entitled to expect
   /\ UNCHANGED stream
+  /\ KeepViews({slot[s].blk})
 
 \* defaulted move assignment: the target's old block is released, the source is left moved-from
 MoveAssign(d, s) ==
@@ -128,6 +150,7 @@ MoveAssign(d, s) ==
   /\ slot' = [slot EXCEPT ![d] = slot[s], ![s] = [slot[s] EXCEPT !.st = "moved", !.blk = NullBlk]]
   /\ model' = [model EXCEPT ![d] = model[s], ![s] = <<>>]
   /\ UNCHANGED <<nblk, stream>>
+  /\ KeepViews({slot[d].blk})
 
 \* a = std::move(a): the result is unspecified but the object must stay destructible and assignable
 SelfMoveAssign(s) ==
@@ -135,6 +158,7 @@ SelfMoveAssign(s) ==
   /\ slot' = [slot EXCEPT ![s].st = "unspec"]
   /\ model' = [model EXCEPT ![s] = <<>>]
   /\ UNCHANGED <<heap, nblk, err, stream>>
+  /\ KeepViews({slot[s].blk})
 
 \* converting constructor field<T2>(const field<T1> &): same extents, re-layout copy driven by nd_map
 Convert(d, s, ty2) ==
@@ -150,6 +174,7 @@ Convert(d, s, ty2) ==
         /\ slot' = [slot EXCEPT ![d] = [st |-> "live", ty |-> ty2, ext |-> e, blk |-> b, size |-> n]]
         /\ model' = [model EXCEPT ![d] = model[s]]
   /\ UNCHANGED <<err, stream>>
+  /\ KeepViews({})
 
 \* field<T2>(field<T1> &&): the converting constructors take their argument by const reference, so a moving conversion
 \* copies; what is left in the source is unspecified (it must stay destructible and assignable)
@@ -165,18 +190,21 @@ ConvertMove(d, s, ty2) ==
         /\ slot' = [slot EXCEPT ![d] = [st |-> "live", ty |-> ty2, ext |-> e, blk |-> b, size |-> n], ![s].st = "unspec"]
         /\ model' = [model EXCEPT ![d] = model[s], ![s] = <<>>]
   /\ UNCHANGED <<err, stream>>
+  /\ KeepViews({slot[s].blk})
 
 \* field<T>(): a default-constructed field has no specified contents; it can be assigned to and destroyed
 DefaultConstruct(s, ty, n) ==
   /\ slot[s].st = "dead" /\ (ty # "hilbert" \/ n = 2) /\ Tick
   /\ slot' = [slot EXCEPT ![s] = [st |-> "unspec", ty |-> ty, ext |-> [k \in 1..n |-> 0], blk |-> NullBlk, size |-> 0]]
   /\ UNCHANGED <<heap, model, nblk, err, stream>>
+  /\ KeepViews({})
 
 \* dump: the configuration and every cell of the storage block, in storage order
 Dump(s) ==
   /\ Live(s) /\ Tick
   /\ stream' = [ty |-> slot[s].ty, ext |-> slot[s].ext, size |-> slot[s].size, cells |-> heap[slot[s].blk].cells]
   /\ UNCHANGED <<slot, heap, model, nblk, err>>
+  /\ KeepViews({})
 
 \* field(std::istream &) of the dumped type
 Load(d) ==
@@ -187,6 +215,7 @@ Load(d) ==
        /\ slot' = [slot EXCEPT ![d] = [st |-> "live", ty |-> stream.ty, ext |-> stream.ext, blk |-> b, size |-> stream.size]]
        /\ model' = [model EXCEPT ![d] = [c \in Box(stream.ext) |-> stream.cells[IdxOf(stream.ty, stream.ext, c)]]]
   /\ UNCHANGED <<err, stream>>
+  /\ KeepViews({})
 
 Destroy(s) ==
   /\ slot[s].st # "dead" /\ Tick
@@ -195,9 +224,33 @@ Destroy(s) ==
   /\ slot' = [slot EXCEPT ![s] = Dead]
   /\ model' = [model EXCEPT ![s] = <<>>]
   /\ UNCHANGED <<nblk, stream>>
+  /\ KeepViews({slot[s].blk})
+
+\* field_view<B> v(f): copies the configuration and the storage pointer out of the field
+MakeView(v, s) ==
+  /\ Live(s) /\ view[v].st = "none" /\ Tick
+  /\ view' = [view EXCEPT ![v] = [st |-> "valid", blk |-> slot[s].blk, ty |-> slot[s].ty, ext |-> slot[s].ext, from |-> s]]
+  /\ UNCHANGED <<slot, heap, model, nblk, err, stream>>
+
+\* the view object itself is destroyed (nothing else changes)
+DropView(v) ==
+  /\ view[v].st = "valid" /\ Tick
+  /\ view' = [view EXCEPT ![v] = NoView]
+  /\ UNCHANGED <<slot, heap, model, nblk, err, stream>>
+
+\* a write through a long-lived view lands in the block the view points to - whoever owns that block now sees it
+WriteView(v, c, val) ==
+  /\ view[v].st = "valid" /\ c \in Box(view[v].ext) /\ Tick
+  /\ LET b == view[v].blk  i == IdxOf(view[v].ty, view[v].ext, c) IN
+       /\ IF heap[b].st # "live" THEN err' = "use-after-free" /\ heap' = heap /\ model' = model
+          ELSE IF i \notin DOMAIN heap[b].cells THEN err' = "out-of-bounds" /\ heap' = heap /\ model' = model
+          ELSE /\ err' = err /\ heap' = [heap EXCEPT ![b].cells[i] = val]
+               /\ model' = [model EXCEPT ![OwnerOf(b)][c] = val]
+  /\ UNCHANGED <<slot, nblk, stream, view>>
 
 AllOps == {"Construct", "Write", "CopyCtor", "MoveCtor", "CopyAssign", "MoveAssign", "Convert", "ConvertMove", "DefaultConstruct", "Dump", "Load", "Destroy"}
 BasicOps == AllOps \ {"ConvertMove", "DefaultConstruct"}
+ViewOps == {"Construct", "Write", "CopyCtor", "MoveCtor", "CopyAssign", "MoveAssign", "Destroy"}
 CoreOps == {"Construct", "Write", "CopyCtor", "MoveCtor", "CopyAssign", "MoveAssign", "Convert", "Destroy"}
 ConvOps == {"Construct", "Write", "Convert", "ConvertMove"}
 On(op) == op \in Ops
@@ -217,6 +270,9 @@ Next ==
   \/ (On("Convert") /\ \E d \in Slots, s \in Slots, ty \in Types : Convert(d, s, ty))
   \/ (On("ConvertMove") /\ \E d \in Slots, s \in Slots, ty \in Types : ConvertMove(d, s, ty))
   \/ (On("DefaultConstruct") /\ \E s \in ConstructSlots, ty \in Types : \E e \in ExtChoices : DefaultConstruct(s, ty, Len(e)))
+  \/ (\E v \in ViewIds, s \in Slots : MakeView(v, s))
+  \/ (\E v \in ViewIds : DropView(v))
+  \/ (\E v \in ViewIds : view[v].st = "valid" /\ \E c \in Box(view[v].ext), val \in Vals \ {0} : WriteView(v, c, val))
 
 Spec == Init /\ [][Next]_vars
 
@@ -227,6 +283,15 @@ Refines == \A s \in Slots : Live(s) =>
              /\ \A c \in Box(slot[s].ext) :
                   /\ IdxOf(slot[s].ty, slot[s].ext, c) \in DOMAIN heap[slot[s].blk].cells
                   /\ heap[slot[s].blk].cells[IdxOf(slot[s].ty, slot[s].ext, c)] = model[s][c]
+\* every view that the rules above keep alive points to live storage that exactly one live field owns, with the view's own
+\* copy of the configuration equal to the owner's: reading through the view is reading the owner (ViewsSeeOwner is what the
+\* replay on the real library compares after every step)
+ViewsValid == \A v \in ViewIds : view[v].st = "valid" =>
+                /\ heap[view[v].blk].st = "live"
+                /\ \E s \in Slots : Live(s) /\ slot[s].blk = view[v].blk /\ slot[s].ty = view[v].ty /\ slot[s].ext = view[v].ext
+ViewCellsIn(h, vr) == [c \in Box(vr.ext) |-> h[vr.blk].cells[IdxOf(vr.ty, vr.ext, c)]]
+ViewCells(v) == ViewCellsIn(heap, view[v])
+ViewsSeeOwner == \A v \in ViewIds : view[v].st = "valid" => ViewCells(v) = model[OwnerOf(view[v].blk)]
 NoAlias == \A a, b \in Slots : (a # b /\ slot[a].blk # NullBlk /\ slot[b].blk # NullBlk) => slot[a].blk # slot[b].blk
 NoUseAfterFree == err # "use-after-free" /\ err # "out-of-bounds" /\
                   \A s \in Slots : slot[s].blk # NullBlk => heap[slot[s].blk].st = "live"
@@ -248,6 +313,9 @@ TypeOK == /\ nblk \in 0..(3 * MaxOps + 2) /\ ops \in 0..MaxOps
           /\ \A s \in Slots : slot[s].st \in {"dead", "live", "moved", "unspec"}
 
 \* ------------------------------------------------------------ model-checking constants
+NoViews == {}
+Views1 == {1}
+Views2 == {1, 2}
 Only1 == {1}
 Slots2 == {1, 2}
 Slots3 == {1, 2, 3}
